@@ -74,10 +74,71 @@ def fallback(cname, binders):
     return f"Definition {cname} {binders} : res (Z) := OutOfFuel.\n"
 
 
+SEND_PUBLISH_PARAMS = ["mid", "topic", "payload", "qos", "retain", "dup", "info", "properties"]
+# the local names publish() itself hands to _send_publish for a QoS 0 message
+PUBLISH_LOCALS = {"mid": "local_mid", "topic": "topic_bytes", "payload": "local_payload", "qos": "qos", "retain": "retain",
+                  "dup": "False", "info": "info", "properties": "properties"}
+
+
+def arg_class(param, node):
+    """0 absent; 1 the stored message's attribute of the same name (m.<param>, topic: m.topic.encode('utf-8'));
+    2 publish()'s own local for that parameter; 3 anything else"""
+    if node is None:
+        return 0
+    text = ast.unparse(node)
+    for obj in ("m", "message"):
+        if text == f"{obj}.{param}" or (param == "topic" and text == f"{obj}.topic.encode('utf-8')"):
+            return 1
+    if text == PUBLISH_LOCALS[param]:
+        return 2
+    return 3
+
+
+def send_publish_calls(tree):
+    """every call self._send_publish(...) in class Client: (enclosing function, [class per parameter])"""
+    rows = []
+    cls = next(n for n in tree.body if isinstance(n, ast.ClassDef) and n.name == "Client")
+    sig = leaf.find_function(tree, "Client._send_publish")
+    names = [a.arg for a in sig.args.args][1:]
+    if names != SEND_PUBLISH_PARAMS:
+        raise leaf.Untranslatable(f"_send_publish signature changed: {names}")
+    for fn in [n for n in cls.body if isinstance(n, ast.FunctionDef)]:
+        for node in ast.walk(fn):
+            if isinstance(node, ast.Call) and isinstance(node.func, ast.Attribute) and node.func.attr == "_send_publish" \
+                    and isinstance(node.func.value, ast.Name) and node.func.value.id == "self":
+                if any(isinstance(a, ast.Starred) for a in node.args) or any(k.arg is None for k in node.keywords):
+                    raise leaf.Untranslatable(f"{fn.name}: _send_publish called with * or ** arguments")
+                bound = dict(zip(names, node.args))
+                if len(node.args) > len(names):
+                    raise leaf.Untranslatable(f"{fn.name}: too many positional arguments")
+                for k in node.keywords:
+                    if k.arg in bound or k.arg not in names:
+                        raise leaf.Untranslatable(f"{fn.name}: bad keyword {k.arg}")
+                    bound[k.arg] = k.value
+                rows.append((fn.name, [arg_class(p, bound.get(p)) for p in names]))
+    return rows
+
+
 def generate(repo):
     src = os.path.join(repo, "src", "paho", "mqtt", "client.py")
     tree = ast.parse(open(src).read())
     out = []
+
+    # ---- every call site of _send_publish: which value each parameter receives
+    try:
+        rows = send_publish_calls(tree)
+        text = "(* one row per call self._send_publish(...) in class Client, in source order; columns = parameters\n" \
+               "   mid topic payload qos retain dup info properties; 0 absent, 1 the stored message's attribute of the same name,\n" \
+               "   2 publish()'s own local for that parameter, 3 anything else *)\n" \
+               "Definition gen_send_publish_calls : list (list Z) :=\n  [ " + \
+               ";\n    ".join("[" + "; ".join(str(c) for c in cls_) + "]  (* " + fn + " *)" for fn, cls_ in rows) + " ].\n"
+        out.append(("GenSendPublishCalls.v", text, []))
+    except leaf.Untranslatable as e:
+        out.append(("GenSendPublishCalls.v", "Definition gen_send_publish_calls : list (list Z) := [].\n",
+                    [("Client._send_publish call sites", str(e))]))
+    except Exception as e:
+        out.append(("GenSendPublishCalls.v", "Definition gen_send_publish_calls : list (list Z) := [].\n",
+                    [("Client._send_publish call sites", f"translator error {type(e).__name__}: {e}")]))
 
     # ---- _send_publish: command = PUBLISH | ((dup & 0x1) << 3) | (qos << 1) | retain
     binders = "(fuel : nat) (dup qos retain : Z)"
